@@ -1324,31 +1324,39 @@ class Engine:
             t = x.single()
             if t is None:
                 raise Inconclusive("range over non-concrete map")
-            return ("mapiter", t.obj, [0])
+            # iterator state: [tag, map object, cursor (index of the last entry produced), calls]
+            return ["mapiter", t.obj, bv(-1), 0]
         raise Inconclusive("range over %r" % (x,))
 
     def op_Next(self, frame, b, ins):
         it = self.operand(frame, ins["iter"])
-        if it[0] == "mapiter":
-            mv = self.mem[it[1]]
-            tt = self.prog.type(ins["type"]).d["elems"]
-            kz = self.zero(self.prog.type(tt[1])) if self.prog.type(tt[1]).kind != "invalid" else None
-            vz = self.zero(self.prog.type(tt[2])) if self.prog.type(tt[2]).kind != "invalid" else None
-            # iteration in list order; entries that are absent are skipped by the guard structure:
-            # we return the first present entry at position >= cursor
-            # (cursor is concrete and advanced by exactly one entry per Next, absent entries yield a
-            # 'skip' that the loop body sees as ok=true only if present) -> simplest sound encoding:
-            # advance one entry per call and report ok = (cursor < n); absent entries are filtered by
-            # assuming presence in the guard.
-            cur = it[2][0]
-            if cur >= len(mv.ents):
-                return (FALSE, kz, vz)
-            it[2][0] = cur + 1
-            p, mk, v = mv.ents[cur]
-            if not is_true(p):
-                raise Inconclusive("range over map with conditionally present entries")
-            return (TRUE, mk if kz is not None else None, v if vz is not None else None)
-        raise Inconclusive("Next")
+        if it[0] != "mapiter":
+            raise Inconclusive("Next")
+        mv = self.mem[it[1]]
+        tt = self.prog.type(ins["type"]).d["elems"]
+        kt, vt = self.prog.type(tt[1]), self.prog.type(tt[2])
+        kz = self.zero(kt) if kt.kind != "invalid" else None
+        vz = self.zero(vt) if vt.kind != "invalid" else None
+        cur, calls = it[2], it[3]
+        ok = FALSE
+        key, val, newcur = kz, vz, cur
+        taken = FALSE
+        # entries are produced in list order; the k-th call can only produce an entry at index >= k
+        for j in range(calls, len(mv.ents)):
+            p, mk, v = mv.ents[j]
+            sel = And(p, bv(j) > cur, Not(taken))
+            if is_false(sel):
+                continue
+            taken = Or(taken, sel)
+            if kz is not None:
+                key = ite(sel, mk, key)
+            if vz is not None:
+                val = ite(sel, v, val)
+            newcur = zif(sel, bv(j), newcur)
+        ok = taken
+        it[2] = zif(self.guard, newcur, cur)
+        it[3] = calls + 1
+        return (ok, key, val)
 
     # ---- calls
     def op_Call(self, frame, b, ins):
